@@ -42,13 +42,12 @@ Section Facts.
   Notation pdone := (parents_done deps).
 
   Lemma pdone_mono (f g : Z -> est) t :
-    (forall d, f d = SSuccess -> g d = SSuccess) -> pdone f t = true -> pdone g t = true.
+    (forall d, done (f d) = true -> done (g d) = true) -> pdone f t = true -> pdone g t = true.
   Proof.
-    unfold parents_done. intros H Hp. rewrite forallb_forall in *. intros d Hd. specialize (Hp d Hd).
-    destruct (f d) eqn:E; try discriminate. rewrite (H d E). reflexivity.
+    unfold parents_done. intros H Hp. rewrite forallb_forall in *. intros d Hd. specialize (Hp d Hd). apply H. exact Hp.
   Qed.
 
-  Lemma pdone_upd f t k v : f k <> SSuccess -> pdone f t = true -> pdone (upd f k v) t = true.
+  Lemma pdone_upd f t k v : done (f k) = false -> pdone f t = true -> pdone (upd f k v) t = true.
   Proof.
     intros Hk. apply pdone_mono. intros d Hd. destruct (Z.eq_dec d k) as [->|Hne]; [congruence|].
     rewrite upd_other by exact Hne. exact Hd.
@@ -56,6 +55,9 @@ Section Facts.
 
   (** a run that can still write: registered and not past its last write *)
   Definition writing (r : rpc) : Prop := match r with RNone | RDone _ => False | _ => True end.
+
+  (** statuses of a task whose main action has not started in the current attempt *)
+  Definition unstarted_st (st : est) : bool := match st with SInit | SRetrying | SContinue | SBlocked => true | _ => false end.
 
   Record Inv (s : eng) : Prop := {
     iR : forall t, match runs s t with
@@ -65,94 +67,117 @@ Section Facts.
                    | REnding => store s t = SEnding
                    | RDone _ | RNone => True
                    end;
-    iK : forall t, know s t = SSuccess -> store s t = SSuccess;
-    iE : forall t st, In (t, st) (evq s) -> st = SSuccess -> store s t = SSuccess;
-    iD : forall t, runs s t = RDone SSuccess -> store s t = SSuccess;
+    iK : forall t, done (know s t) = true -> store s t = know s t;
+    iE : forall t st, In (t, st) (evq s) -> done st = true -> store s t = st;
+    iD : forall t ev, runs s t = RDone ev -> done ev = true -> store s t = ev;
     iE2 : forall t, In (t, SInit) (evq s) -> pdone (store s) t = true;
     iP : forall c sn, In (c, sn) (pend s) -> pdone (store s) c = true;
+    iPQ : forall c sn, In (c, sn) (pushq s) -> pdone (store s) c = true;
     iQ : forall t, runs s t <> RNone -> pdone (store s) t = true;
-    iS : forall t, started s t = true -> store s t <> SInit /\ store s t <> SRetrying
+    iS : forall t, started s t = true -> unstarted_st (store s t) = false
   }.
 
   Lemma inv_boot : Inv boot.
   Proof. constructor; cbn; intros; try discriminate; try contradiction; auto. Qed.
 
-  Lemma snap_pushable_pdone f c sn l :
-    In (c, sn) (snap f (filter (pushable deps f) l)) -> pdone f c = true.
-  Proof.
-    unfold snap. intros H. apply in_map_iff in H. destruct H as (x & Hx & Hin). inv Hx.
-    apply filter_In in Hin. destruct Hin as (_ & Hp). unfold pushable in Hp. apply andb_true_iff in Hp. apply Hp.
-  Qed.
-
-  Lemma writing_not_success s t : Inv s -> writing (runs s t) -> store s t <> SSuccess.
+  Lemma writing_not_done s t : Inv s -> writing (runs s t) -> done (store s t) = false.
   Proof.
     intros HI Hr. pose proof (iR s HI t) as H. destruct (runs s t) as [|sn| | | |ev]; cbn in Hr; try contradiction.
-    all: destruct H as (H1 & H2) || idtac; try congruence.
-    rewrite H1. destruct sn; cbn in H2; congruence.
+    - destruct H as (H1 & H2). rewrite H1. destruct sn; cbn in H2 |- *; congruence.
+    - destruct H as (H1 & _). rewrite H1. reflexivity.
+    - rewrite H. reflexivity.
+    - rewrite H. reflexivity.
   Qed.
 
-  (** what survives a write to a task that is not recorded success *)
-  Lemma frame s t v : Inv s -> store s t <> SSuccess ->
-    (forall x, know s x = SSuccess -> upd (store s) t v x = SSuccess) /\
-    (forall x st, In (x, st) (evq s) -> st = SSuccess -> upd (store s) t v x = SSuccess) /\
-    (forall x, runs s x = RDone SSuccess -> upd (store s) t v x = SSuccess) /\
+  (** what survives a write to a task that is not recorded finished *)
+  Lemma frame s t v : Inv s -> done (store s t) = false ->
+    (forall x, done (know s x) = true -> upd (store s) t v x = know s x) /\
+    (forall x st, In (x, st) (evq s) -> done st = true -> upd (store s) t v x = st) /\
+    (forall x ev, runs s x = RDone ev -> done ev = true -> upd (store s) t v x = ev) /\
     (forall x, In (x, SInit) (evq s) -> pdone (upd (store s) t v) x = true) /\
     (forall c sn, In (c, sn) (pend s) -> pdone (upd (store s) t v) c = true) /\
+    (forall c sn, In (c, sn) (pushq s) -> pdone (upd (store s) t v) c = true) /\
     (forall x, runs s x <> RNone -> pdone (upd (store s) t v) x = true).
   Proof.
     intros HI Hns. repeat split.
-    - intros x Hk. destruct (Z.eq_dec x t) as [->|Hne]; [exfalso; apply Hns; apply (iK s HI t Hk)|].
+    - intros x Hk. destruct (Z.eq_dec x t) as [->|Hne]; [exfalso; rewrite (iK s HI t Hk) in Hns; congruence|].
       rewrite upd_other by exact Hne. apply (iK s HI x Hk).
-    - intros x st Hin Hs. destruct (Z.eq_dec x t) as [->|Hne]; [exfalso; apply Hns; apply (iE s HI t st Hin Hs)|].
+    - intros x st Hin Hs. destruct (Z.eq_dec x t) as [->|Hne]; [exfalso; rewrite (iE s HI t st Hin Hs) in Hns; congruence|].
       rewrite upd_other by exact Hne. apply (iE s HI x st Hin Hs).
-    - intros x Hx. destruct (Z.eq_dec x t) as [->|Hne]; [exfalso; apply Hns; apply (iD s HI t Hx)|].
-      rewrite upd_other by exact Hne. apply (iD s HI x Hx).
+    - intros x ev Hx Hd. destruct (Z.eq_dec x t) as [->|Hne]; [exfalso; rewrite (iD s HI t ev Hx Hd) in Hns; congruence|].
+      rewrite upd_other by exact Hne. apply (iD s HI x ev Hx Hd).
     - intros x Hin. apply pdone_upd; [exact Hns|apply (iE2 s HI x Hin)].
     - intros c sn Hin. apply pdone_upd; [exact Hns|apply (iP s HI c sn Hin)].
+    - intros c sn Hin. apply pdone_upd; [exact Hns|apply (iPQ s HI c sn Hin)].
     - intros x Hx. apply pdone_upd; [exact Hns|apply (iQ s HI x Hx)].
   Qed.
 
   Notation stepv := (step tasks deps true cmdquiet nonoop).
 
-  (** a run of [t] writes its last status [v] (not retrying; init only from the retry hook) *)
+  (** a run of [t] writes its last status [v] (never retrying / continue; init only from the retry hook) *)
   Lemma inv_end_run s t v :
-    Inv s -> writing (runs s t) -> v <> SRetrying -> (v = SInit -> started s t = false) -> Inv (end_run s t v).
+    Inv s -> writing (runs s t) -> (unstarted_st v = true -> started s t = false) -> Inv (end_run s t v).
   Proof.
-    intros HI Hr Hv2 Hv1. pose proof (writing_not_success s t HI Hr) as Hns.
+    intros HI Hr Hv1. pose proof (writing_not_done s t HI Hr) as Hns.
     assert (Hlive : runs s t <> RNone) by (destruct (runs s t); cbn in Hr; try contradiction; discriminate).
-    destruct (frame s t v HI Hns) as (FK & FE & FD & FE2 & FP & FQ).
+    destruct (frame s t v HI Hns) as (FK & FE & FD & FE2 & FP & FPQ & FQ).
     constructor; cbn.
     - intros x. destruct (Z.eq_dec x t) as [->|Hne]; [rewrite !upd_same; exact Logic.I|rewrite !upd_other by exact Hne; apply (iR s HI)].
     - exact FK.
     - exact FE.
-    - intros x Hx. destruct (Z.eq_dec x t) as [->|Hne].
+    - intros x ev Hx Hd. destruct (Z.eq_dec x t) as [->|Hne].
       + rewrite upd_same in Hx. inv Hx. rewrite upd_same. reflexivity.
-      + rewrite upd_other in Hx by exact Hne. apply (FD x Hx).
+      + rewrite upd_other in Hx by exact Hne. apply (FD x ev Hx Hd).
     - exact FE2.
     - exact FP.
+    - exact FPQ.
     - intros x Hx. destruct (Z.eq_dec x t) as [->|Hne]; [apply FQ; exact Hlive|].
       rewrite upd_other in Hx by exact Hne. apply (FQ x Hx).
     - intros x Hx. destruct (Z.eq_dec x t) as [->|Hne].
-      + rewrite upd_same. split; [|exact Hv2]. intros ->. rewrite (Hv1 eq_refl) in Hx. discriminate.
+      + rewrite upd_same. destruct (unstarted_st v) eqn:Eu; [|reflexivity]. rewrite (Hv1 eq_refl) in Hx. discriminate.
       + rewrite upd_other by exact Hne. apply (iS s HI x Hx).
   Qed.
 
-  Lemma inv_initial s : Inv s -> Inv (initial tasks deps s).
+  Lemma inv_initial pb s : Inv s -> Inv (initial tasks deps pb s).
   Proof.
     intros HI. unfold initial. destruct (filter (pushable deps (store s)) tasks) as [|e ex] eqn:Ef.
-    - destruct (verdict_of tasks deps (store s)); [exact HI| |]; constructor; cbn; apply HI.
+    - destruct (verdict_of tasks deps pb (store s)); [exact HI| | |]; constructor; cbn; apply HI.
     - assert (Hex : forall x, In x (e :: ex) -> pushable deps (store s) x = true).
       { intros x Hx. rewrite <- Ef in Hx. apply filter_In in Hx. apply Hx. }
       remember (e :: ex) as L. clear HeqL Ef.
       constructor; cbn; try apply HI.
-      + intros x Hx. exact Hx.
-      + intros c sn Hin. apply in_app_or in Hin. destruct Hin as [Hin|Hin]; [apply (iP s HI c sn Hin)|].
+      + intros x Hx. reflexivity.
+      + intros c sn Hin. apply in_app_or in Hin. destruct Hin as [Hin|Hin]; [apply (iPQ s HI c sn Hin)|].
         unfold snap in Hin. apply in_map_iff in Hin. destruct Hin as (x & Hx & Hin). inv Hx.
         specialize (Hex c Hin). unfold pushable in Hex. apply andb_true_iff in Hex. apply Hex.
   Qed.
 
   Lemma inv_set_ph s p : Inv s -> Inv (set_ph s p).
   Proof. intros HI. constructor; cbn; apply HI. Qed.
+
+  (** a push writes a pre-check verdict: the snapshot is current and the executor holds nothing for the task *)
+  Lemma inv_push_verdict s t sn v q' :
+    Inv s -> remove1 (t, sn) (pushq s) = Some q' -> can_skip sn = true -> store s t = sn -> runs s t = RNone ->
+    (v = SSkipped \/ v = SBlocked) -> Inv (push_verdict s t v q').
+  Proof.
+    intros HI Hr Hcs Hst Hrn Hv.
+    assert (Hns : done (store s t) = false) by (rewrite Hst; destruct sn; cbn in Hcs |- *; congruence).
+    destruct (frame s t v HI Hns) as (FK & FE & FD & FE2 & FP & FPQ & FQ).
+    constructor; cbn.
+    - intros x. pose proof (iR s HI x) as H. destruct (Z.eq_dec x t) as [->|Hne]; [rewrite Hrn; exact Logic.I|].
+      rewrite upd_other by exact Hne. exact H.
+    - exact FK.
+    - intros x st Hin Hs. apply in_app_or in Hin. destruct Hin as [Hin|[Hin|[]]]; [apply (FE x st Hin Hs)|].
+      inv Hin. apply upd_same.
+    - exact FD.
+    - intros x Hin. apply in_app_or in Hin. destruct Hin as [Hin|[Hin|[]]]; [apply (FE2 x Hin)|]. inv Hin. destruct Hv; discriminate.
+    - exact FP.
+    - intros c sn' Hin. apply (FPQ c sn'). eapply remove1_in; eassumption.
+    - exact FQ.
+    - intros x Hx. destruct (Z.eq_dec x t) as [->|Hne].
+      + exfalso. pose proof (iS s HI t Hx) as H. rewrite Hst in H. destruct sn; cbn in Hcs, H; congruence.
+      + rewrite upd_other by exact Hne. apply (iS s HI x Hx).
+  Qed.
 
   Lemma inv_step s l s' : Inv s -> stepv s l = Some s' -> Inv s'.
   Proof.
@@ -166,10 +191,11 @@ Section Facts.
       + intros x. destruct (Z.eq_dec x t) as [->|Hne]; [rewrite upd_same; auto|rewrite upd_other by exact Hne; apply (iR s HI)].
       + apply (iK s HI).
       + apply (iE s HI).
-      + intros x Hx. destruct (Z.eq_dec x t) as [->|Hne]; [rewrite upd_same in Hx; discriminate|].
-        rewrite upd_other in Hx by exact Hne. apply (iD s HI x Hx).
+      + intros x ev Hx. destruct (Z.eq_dec x t) as [->|Hne]; [rewrite upd_same in Hx; discriminate|].
+        rewrite upd_other in Hx by exact Hne. apply (iD s HI x ev Hx).
       + apply (iE2 s HI).
       + intros c sn Hin. apply (iP s HI c sn). eapply remove1_in; eassumption.
+      + apply (iPQ s HI).
       + intros x Hx. destruct (Z.eq_dec x t) as [->|Hne].
         * apply (iP s HI t s0). eapply remove1_mem; eassumption.
         * rewrite upd_other in Hx by exact Hne. apply (iQ s HI x Hx).
@@ -185,31 +211,35 @@ Section Facts.
       destruct HRt as (Hst & Hex).
       assert (Hw : writing (runs s t)) by (rewrite Er; exact Logic.I).
       assert (Hlive : runs s t <> RNone) by congruence.
-      pose proof (writing_not_success s t HI Hw) as Hns.
-      destruct sn; try discriminate; inv HS.
-      + (* from init: 'running' is stored *)
-        destruct (frame s t SRunning HI Hns) as (FK & FE & FD & FE2 & FP & FQ).
+      pose proof (writing_not_done s t HI Hw) as Hns.
+      assert (Hrun : forall s1, s1 = set_runs (set_store s (upd (store s) t SRunning)) (upd (runs s) t RRunning) ->
+                      (sn = SInit \/ sn = SContinue) -> Inv s1).
+      { intros s1 -> Hsn.
+        destruct (frame s t SRunning HI Hns) as (FK & FE & FD & FE2 & FP & FPQ & FQ).
         constructor; cbn; auto.
         * intros x. destruct (Z.eq_dec x t) as [->|Hne].
           -- rewrite !upd_same. split; [reflexivity|].
-             destruct (started s t) eqn:Es; [|reflexivity]. destruct (iS s HI t Es) as (A & _). congruence.
+             destruct (started s t) eqn:Es; [|reflexivity]. pose proof (iS s HI t Es) as A. rewrite Hst in A. destruct Hsn as [E|E]; rewrite E in A; discriminate A.
           -- rewrite !upd_other by exact Hne. apply (iR s HI).
-        * intros x Hx. destruct (Z.eq_dec x t) as [->|Hne]; [rewrite upd_same in Hx; discriminate|].
-          rewrite upd_other in Hx by exact Hne. apply (FD x Hx).
+        * intros x ev Hx. destruct (Z.eq_dec x t) as [->|Hne]; [rewrite upd_same in Hx; discriminate|].
+          rewrite upd_other in Hx by exact Hne. apply (FD x ev Hx).
         * intros x Hx. destruct (Z.eq_dec x t) as [->|Hne]; [apply FQ; exact Hlive|].
           rewrite upd_other in Hx by exact Hne. apply (FQ x Hx).
-        * intros x Hx. destruct (Z.eq_dec x t) as [->|Hne]; [rewrite upd_same; split; discriminate|].
-          rewrite upd_other by exact Hne. apply (iS s HI x Hx).
+        * intros x Hx. destruct (Z.eq_dec x t) as [->|Hne]; [rewrite upd_same; reflexivity|].
+          rewrite upd_other by exact Hne. apply (iS s HI x Hx). }
+      destruct sn; try discriminate; inv HS.
+      + apply (Hrun _ eq_refl). left. reflexivity.
       + (* resumed in ending: nothing is written *)
         constructor; cbn; try apply HI.
         * intros x. destruct (Z.eq_dec x t) as [->|Hne]; [rewrite upd_same; exact Hst|rewrite upd_other by exact Hne; apply (iR s HI)].
-        * intros x Hx. destruct (Z.eq_dec x t) as [->|Hne]; [rewrite upd_same in Hx; discriminate|].
-          rewrite upd_other in Hx by exact Hne. apply (iD s HI x Hx).
+        * intros x ev Hx. destruct (Z.eq_dec x t) as [->|Hne]; [rewrite upd_same in Hx; discriminate|].
+          rewrite upd_other in Hx by exact Hne. apply (iD s HI x ev Hx).
         * intros x Hx. destruct (Z.eq_dec x t) as [->|Hne]; [apply (iQ s HI t Hlive)|].
           rewrite upd_other in Hx by exact Hne. apply (iQ s HI x Hx).
       + (* from retrying: the hook ran, 'init' is stored *)
-        apply inv_end_run; try assumption; try discriminate.
-        intros _. destruct (started s t) eqn:Es; [|reflexivity]. destruct (iS s HI t Es) as (_ & B). congruence.
+        apply inv_end_run; try assumption.
+        intros _. destruct (started s t) eqn:Es; [|reflexivity]. pose proof (iS s HI t Es) as B. rewrite Hst in B. discriminate.
+      + apply (Hrun _ eq_refl). right. reflexivity.
     - (* MainStart *)
       pose proof (iR s HI t) as HRt.
       destruct (runs s t) eqn:Er; try discriminate. inv HS. destruct HRt as (Hst & Hnst).
@@ -217,51 +247,51 @@ Section Facts.
       constructor; cbn; try apply HI.
       + intros x. destruct (Z.eq_dec x t) as [->|Hne]; [rewrite upd_same; exact Hst|].
         rewrite !upd_other by exact Hne. apply (iR s HI).
-      + intros x Hx. destruct (Z.eq_dec x t) as [->|Hne]; [rewrite upd_same in Hx; discriminate|].
-        rewrite upd_other in Hx by exact Hne. apply (iD s HI x Hx).
+      + intros x ev Hx. destruct (Z.eq_dec x t) as [->|Hne]; [rewrite upd_same in Hx; discriminate|].
+        rewrite upd_other in Hx by exact Hne. apply (iD s HI x ev Hx).
       + intros x Hx. destruct (Z.eq_dec x t) as [->|Hne]; [apply (iQ s HI t Hlive)|].
         rewrite upd_other in Hx by exact Hne. apply (iQ s HI x Hx).
-      + intros x Hx. destruct (Z.eq_dec x t) as [->|Hne]; [rewrite Hst; split; discriminate|].
+      + intros x Hx. destruct (Z.eq_dec x t) as [->|Hne]; [rewrite Hst; reflexivity|].
         rewrite upd_other in Hx by exact Hne. apply (iS s HI x Hx).
     - (* MainOk *)
       pose proof (iR s HI t) as HRt.
       destruct (runs s t) eqn:Er; try discriminate. inv HS.
       assert (Hw : writing (runs s t)) by (rewrite Er; exact Logic.I).
       assert (Hlive : runs s t <> RNone) by congruence.
-      pose proof (writing_not_success s t HI Hw) as Hns.
-      destruct (frame s t SEnding HI Hns) as (FK & FE & FD & FE2 & FP & FQ).
+      pose proof (writing_not_done s t HI Hw) as Hns.
+      destruct (frame s t SEnding HI Hns) as (FK & FE & FD & FE2 & FP & FPQ & FQ).
       constructor; cbn; auto.
       + intros x. destruct (Z.eq_dec x t) as [->|Hne]; [rewrite !upd_same; reflexivity|rewrite !upd_other by exact Hne; apply (iR s HI)].
-      + intros x Hx. destruct (Z.eq_dec x t) as [->|Hne]; [rewrite upd_same in Hx; discriminate|].
-        rewrite upd_other in Hx by exact Hne. apply (FD x Hx).
+      + intros x ev Hx. destruct (Z.eq_dec x t) as [->|Hne]; [rewrite upd_same in Hx; discriminate|].
+        rewrite upd_other in Hx by exact Hne. apply (FD x ev Hx).
       + intros x Hx. destruct (Z.eq_dec x t) as [->|Hne]; [apply FQ; exact Hlive|].
         rewrite upd_other in Hx by exact Hne. apply (FQ x Hx).
-      + intros x Hx. destruct (Z.eq_dec x t) as [->|Hne]; [rewrite upd_same; split; discriminate|].
+      + intros x Hx. destruct (Z.eq_dec x t) as [->|Hne]; [rewrite upd_same; reflexivity|].
         rewrite upd_other by exact Hne. apply (iS s HI x Hx).
     - (* MainErr *)
       destruct (runs s t) eqn:Er; try discriminate. inv HS.
-      apply inv_end_run; try assumption; try discriminate. rewrite Er. exact Logic.I.
+      apply inv_end_run; try assumption; [rewrite Er; exact Logic.I|cbn; discriminate].
     - (* AfterOk *)
       destruct (runs s t) eqn:Er; try discriminate. inv HS.
-      apply inv_end_run; try assumption; try discriminate. rewrite Er. exact Logic.I.
+      apply inv_end_run; try assumption; [rewrite Er; exact Logic.I|cbn; discriminate].
     - (* AfterErr *)
       destruct (runs s t) eqn:Er; try discriminate. inv HS.
-      apply inv_end_run; try assumption; try discriminate. rewrite Er. exact Logic.I.
+      apply inv_end_run; try assumption; [rewrite Er; exact Logic.I|cbn; discriminate].
     - (* BeforeErr *)
-      destruct (runs s t) as [|sn| | | |ev] eqn:Er; try discriminate. destruct sn; try discriminate. inv HS.
-      apply inv_end_run; try assumption; try discriminate. rewrite Er. exact Logic.I.
+      destruct (runs s t) as [|sn| | | |ev] eqn:Er; try discriminate. destruct sn; try discriminate; inv HS;
+        (apply inv_end_run; try assumption; [rewrite Er; exact Logic.I|cbn; discriminate]).
     - (* RetryErr *)
       destruct (runs s t) as [|sn| | | |ev] eqn:Er; try discriminate. destruct sn; try discriminate. inv HS.
-      apply inv_end_run; try assumption; try discriminate. rewrite Er. exact Logic.I.
+      apply inv_end_run; try assumption; [rewrite Er; exact Logic.I|cbn; discriminate].
     - (* Finish *)
       destruct (runs s t) as [|sn| | | |ev] eqn:Er; try discriminate. inv HS.
       assert (Hlive : runs s t <> RNone) by congruence.
       constructor; cbn; try apply HI.
       + intros x. destruct (Z.eq_dec x t) as [->|Hne]; [rewrite upd_same; exact Logic.I|rewrite upd_other by exact Hne; apply (iR s HI)].
       + intros x st Hin Hs. apply in_app_or in Hin. destruct Hin as [Hin|[Hin|[]]]; [apply (iE s HI x st Hin Hs)|].
-        inv Hin. apply (iD s HI x). exact Er.
-      + intros x Hx. destruct (Z.eq_dec x t) as [->|Hne]; [rewrite upd_same in Hx; discriminate|].
-        rewrite upd_other in Hx by exact Hne. apply (iD s HI x Hx).
+        inv Hin. apply (iD s HI x st Er Hs).
+      + intros x ev' Hx. destruct (Z.eq_dec x t) as [->|Hne]; [rewrite upd_same in Hx; discriminate|].
+        rewrite upd_other in Hx by exact Hne. apply (iD s HI x ev' Hx).
       + intros x Hin. apply in_app_or in Hin. destruct Hin as [Hin|[Hin|[]]]; [apply (iE2 s HI x Hin)|]. inv Hin.
         apply (iQ s HI x Hlive).
       + intros x Hx. destruct (Z.eq_dec x t) as [->|Hne]; [rewrite upd_same in Hx; congruence|].
@@ -273,10 +303,10 @@ Section Facts.
         - intros x st' Hin Hs. apply (iE s HI x st'); [rewrite Eq; right; exact Hin|exact Hs].
         - intros x Hin. apply (iE2 s HI x). rewrite Eq. right. exact Hin. }
       destruct (tree s && parents_done deps (know s) t); [|inv HS; exact Hs0].
-      assert (HK' : forall x, upd (know s) t st x = SSuccess -> store s x = SSuccess).
+      assert (HK' : forall x, done (upd (know s) t st x) = true -> store s x = upd (know s) t st x).
       { intros x Hx. destruct (Z.eq_dec x t) as [->|Hne].
-        - rewrite upd_same in Hx. apply (iE s HI t st); [rewrite Eq; left; reflexivity|exact Hx].
-        - rewrite upd_other in Hx by exact Hne. apply (iK s HI x Hx). }
+        - rewrite upd_same in Hx |- *. apply (iE s HI t st); [rewrite Eq; left; reflexivity|exact Hx].
+        - rewrite upd_other in Hx |- * by exact Hne. apply (iK s HI x Hx). }
       assert (Hs1 : Inv (set_know (set_evq s r) (upd (know s) t st))).
       { constructor; cbn; try apply Hs0. exact HK'. }
       match type of HS with (match ?nx with _ => _ end) = _ => remember nx as L eqn:EL end.
@@ -284,15 +314,35 @@ Section Facts.
       { intros c Hin. subst L. destruct (done st) eqn:Ed.
         * apply filter_In in Hin. destruct Hin as (_ & Hp). unfold pushable in Hp. apply andb_true_iff in Hp. destruct Hp as (_ & Hp).
           unfold parents_done in *. rewrite forallb_forall in *. intros d Hd. specialize (Hp d Hd).
-          destruct (upd (know s) t st d) eqn:E; try discriminate. rewrite (HK' d E). reflexivity.
+          rewrite (HK' d Hp). exact Hp.
         * destruct (est_eqb st SInit) eqn:Ei; [|contradiction]. apply est_eqb_eq in Ei. subst st.
           destruct Hin as [<-|[]]. apply (iE2 s HI t). rewrite Eq. left. reflexivity. }
       clear EL. destruct L as [|n0 nx'].
-      + destruct (verdict_of tasks deps (upd (know s) t st)); inv HS; [exact Hs1| |]; constructor; cbn; apply Hs1.
+      + destruct (verdict_of tasks deps pb (upd (know s) t st)); inv HS; [exact Hs1| | |]; constructor; cbn; apply Hs1.
       + inv HS. constructor; cbn; try apply Hs1.
-        intros c sn Hin. apply in_app_or in Hin. destruct Hin as [Hin|Hin]; [apply (iP s HI c sn Hin)|].
+        intros c sn Hin. apply in_app_or in Hin. destruct Hin as [Hin|Hin]; [apply (iPQ s HI c sn Hin)|].
         destruct Hin as [Hin|Hin]; [inv Hin; apply HL; left; reflexivity|].
         apply in_map_iff in Hin. destruct Hin as (x & Hx & Hin). inv Hx. apply HL. right. exact Hin.
+    - (* PushRun *)
+      destruct (remove1 (t, s0) (pushq s)) as [q'|] eqn:Er; [|discriminate]. inv HS.
+      constructor; cbn; try apply HI.
+      + intros c sn Hin. apply in_app_or in Hin. destruct Hin as [Hin|[Hin|[]]]; [apply (iP s HI c sn Hin)|].
+        inv Hin. apply (iPQ s HI c sn). eapply remove1_mem; eassumption.
+      + intros c sn Hin. apply (iPQ s HI c sn). eapply remove1_in; eassumption.
+    - (* PushSkip *)
+      destruct (remove1 (t, s0) (pushq s)) as [q'|] eqn:Er; [|discriminate].
+      match type of HS with (if ?b then _ else _) = _ => destruct b eqn:Eok; [|discriminate] end. inv HS.
+      apply andb_true_iff in Eok. destruct Eok as (Ecs & Eok). apply andb_true_iff in Eok. destruct Eok as (Eok & _).
+      apply andb_true_iff in Eok. destruct Eok as (Est & Enr). apply est_eqb_eq in Est.
+      assert (Hrn : runs s t = RNone) by (destruct (runs s t); cbn in Enr; congruence).
+      eapply inv_push_verdict; try eassumption. left. reflexivity.
+    - (* PushBlock *)
+      destruct (remove1 (t, s0) (pushq s)) as [q'|] eqn:Er; [|discriminate].
+      match type of HS with (if ?b then _ else _) = _ => destruct b eqn:Eok; [|discriminate] end. inv HS.
+      apply andb_true_iff in Eok. destruct Eok as (Ecs & Eok). apply andb_true_iff in Eok. destruct Eok as (Eok & _).
+      apply andb_true_iff in Eok. destruct Eok as (Est & Enr). apply est_eqb_eq in Est.
+      assert (Hrn : runs s t = RNone) by (destruct (runs s t); cbn in Enr; congruence).
+      eapply inv_push_verdict; try eassumption; [destruct s0; cbn in Ecs |- *; congruence|right; reflexivity].
     - (* CmdIssue *)
       match type of HS with (if ?b then _ else _) = _ => destruct b; [|discriminate] end. inv HS.
       constructor; cbn; apply HI.
@@ -303,8 +353,8 @@ Section Facts.
     - (* Rearm *)
       destruct (ph s); try discriminate. destruct (store s t) eqn:Est; try discriminate.
       destruct (existsb (Z.eqb t) tasks); [|discriminate]. inv HS.
-      assert (Hns : store s t <> SSuccess) by congruence.
-      destruct (frame s t SRetrying HI Hns) as (FK & FE & FD & FE2 & FP & FQ).
+      assert (Hns : done (store s t) = false) by (rewrite Est; reflexivity).
+      destruct (frame s t SRetrying HI Hns) as (FK & FE & FD & FE2 & FP & FPQ & FQ).
       constructor; cbn; auto.
       + intros x. pose proof (iR s HI x) as H. destruct (Z.eq_dec x t) as [->|Hne].
         * destruct (runs s t) as [|sn| | | |ev]; auto.
@@ -315,6 +365,22 @@ Section Facts.
         * rewrite !upd_other by exact Hne. exact H.
       + intros x Hx. destruct (Z.eq_dec x t) as [->|Hne]; [rewrite upd_same in Hx; discriminate|].
         rewrite upd_other in Hx by exact Hne. rewrite upd_other by exact Hne. apply (iS s HI x Hx).
+    - (* ContArm *)
+      destruct (ph s); try discriminate. destruct (store s t) eqn:Est; try discriminate.
+      destruct (existsb (Z.eqb t) tasks); [|discriminate]. inv HS.
+      assert (Hns : done (store s t) = false) by (rewrite Est; reflexivity).
+      destruct (frame s t SContinue HI Hns) as (FK & FE & FD & FE2 & FP & FPQ & FQ).
+      constructor; cbn; auto.
+      + intros x. pose proof (iR s HI x) as H. destruct (Z.eq_dec x t) as [->|Hne].
+        * destruct (runs s t) as [|sn| | | |ev]; auto.
+          -- destruct H as (H1 & H2). rewrite Est in H1. subst sn. discriminate.
+          -- destruct H as (H1 & _). congruence.
+          -- congruence.
+          -- congruence.
+        * rewrite !upd_other by exact Hne. exact H.
+      + intros x Hx. destruct (Z.eq_dec x t) as [->|Hne].
+        * exfalso. pose proof (iS s HI t Hx) as A. rewrite Est in A. discriminate.
+        * rewrite upd_other by exact Hne. apply (iS s HI x Hx).
     - (* CmdPatch *)
       destruct (ph s); try discriminate. destruct (armed s); [inv HS; constructor; cbn; apply HI|].
       destruct nonoop; [discriminate|]. inv HS. constructor; cbn; apply HI.
@@ -326,12 +392,12 @@ Section Facts.
       destruct (ph s); try discriminate. destruct (ins s); try discriminate; inv HS; apply inv_set_ph; exact HI.
     - (* WdFail *)
       destruct (store s t) eqn:Est; try discriminate. destruct (runs s t) eqn:Er; try discriminate. inv HS.
-      assert (Hns : store s t <> SSuccess) by congruence.
-      destruct (frame s t SFailed HI Hns) as (FK & FE & FD & FE2 & FP & FQ).
+      assert (Hns : done (store s t) = false) by (rewrite Est; reflexivity).
+      destruct (frame s t SFailed HI Hns) as (FK & FE & FD & FE2 & FP & FPQ & FQ).
       constructor; cbn; auto.
       + intros x. destruct (Z.eq_dec x t) as [->|Hne]; [rewrite Er; exact Logic.I|].
         rewrite !upd_other by exact Hne. apply (iR s HI).
-      + intros x Hx. destruct (Z.eq_dec x t) as [->|Hne]; [rewrite upd_same; split; discriminate|].
+      + intros x Hx. destruct (Z.eq_dec x t) as [->|Hne]; [rewrite upd_same; reflexivity|].
         rewrite upd_other by exact Hne. apply (iS s HI x Hx).
     - (* Crash *)
       inv HS. constructor; cbn; intros; try contradiction; try congruence; auto.
@@ -346,7 +412,7 @@ Section Facts.
     - destruct (stepv s l) as [s1|] eqn:E; [|discriminate]. eapply IH; [eapply inv_step; eassumption|exact HR].
   Qed.
 
-  (** C01: a main action starts only when every dependency is recorded success *)
+  (** C01: a main action starts only when every dependency is recorded success or skipped *)
   Theorem main_start_parents_done s t s' : Inv s -> stepv s (MainStart t) = Some s' -> pdone (store s) t = true.
   Proof.
     intros HI HS. cbn in HS. destruct (runs s t) eqn:Er; try discriminate. apply (iQ s HI t). congruence.
@@ -365,9 +431,9 @@ Section Facts.
     intros HI HS. cbn in HS. pose proof (iR s HI t) as H. destruct (runs s t) eqn:Er; try discriminate. apply H.
   Qed.
 
-  Lemma started_initial s t : started (initial tasks deps s) t = started s t.
+  Lemma started_initial pb s t : started (initial tasks deps pb s) t = started s t.
   Proof.
-    unfold initial. destruct (filter (pushable deps (store s)) tasks); [destruct (verdict_of tasks deps (store s))|]; reflexivity.
+    unfold initial. destruct (filter (pushable deps (store s)) tasks); [destruct (verdict_of tasks deps pb (store s))|]; reflexivity.
   Qed.
 
   Theorem started_kept s l s' t : stepv s l = Some s' -> started s t = true -> l <> Rearm t -> started s' t = true.
@@ -385,25 +451,88 @@ Section Facts.
       destruct (Z.eq_dec t t0) as [->|Hne]; [congruence|rewrite upd_other by exact Hne; exact Hst].
   Qed.
 
-  Lemma store_initial s t : store (initial tasks deps s) t = store s t.
+  Lemma store_initial pb s t : store (initial tasks deps pb s) t = store s t.
   Proof.
-    unfold initial. destruct (filter (pushable deps (store s)) tasks); [destruct (verdict_of tasks deps (store s))|]; reflexivity.
+    unfold initial. destruct (filter (pushable deps (store s)) tasks); [destruct (verdict_of tasks deps pb (store s))|]; reflexivity.
   Qed.
 
-  (** C15: success is final *)
-  Theorem success_final s l s' t : Inv s -> stepv s l = Some s' -> store s t = SSuccess -> store s' t = SSuccess.
+  (** C15 / C13: a finished task (success or skipped) is never given another status *)
+  Theorem done_final s l s' t : Inv s -> stepv s l = Some s' -> done (store s t) = true -> store s' t = store s t.
   Proof.
     intros HI HS Hst.
     assert (Hlive : forall x, writing (runs s x) -> x <> t).
-    { intros x Hx ->. exact (writing_not_success s t HI Hx Hst). }
-    assert (Hw : forall x v, x <> t -> upd (store s) x v t = SSuccess).
-    { intros x v Hx. rewrite upd_other by congruence. exact Hst. }
+    { intros x Hx ->. rewrite (writing_not_done s t HI Hx) in Hst. discriminate. }
+    assert (Hw : forall x v, x <> t -> upd (store s) x v t = store s t).
+    { intros x v Hx. apply upd_other. congruence. }
     destruct l; cbn in HS;
       try (repeat match goal with
              | H : match ?x with _ => _ end = Some _ |- _ => destruct x eqn:?; try discriminate
-             end; inv HS; cbn; rewrite ?store_initial; try exact Hst;
+             end; inv HS; cbn; rewrite ?store_initial; try reflexivity;
            try (apply Hw; apply Hlive; match goal with H : runs s _ = _ |- _ => rewrite H; exact Logic.I end);
-           try (apply Hw; intro; subst; congruence); fail).
+           try (apply Hw; intro; subst; match goal with H : store s _ = _ |- _ => rewrite H in Hst; discriminate end); fail).
+    - (* PushSkip *)
+      destruct (remove1 (t0, s0) (pushq s)); [|discriminate].
+      match type of HS with (if ?b then _ else _) = _ => destruct b eqn:Eok; [|discriminate] end. inv HS. cbn. apply Hw. intros ->.
+      apply andb_true_iff in Eok. destruct Eok as (Ec & Eok). apply andb_true_iff in Eok. destruct Eok as (Eok & _).
+      apply andb_true_iff in Eok. destruct Eok as (Eok & _). apply est_eqb_eq in Eok. rewrite Eok in Hst. destruct s0; cbn in Ec, Hst; congruence.
+    - (* PushBlock *)
+      destruct (remove1 (t0, s0) (pushq s)); [|discriminate].
+      match type of HS with (if ?b then _ else _) = _ => destruct b eqn:Eok; [|discriminate] end. inv HS. cbn. apply Hw. intros ->.
+      apply andb_true_iff in Eok. destruct Eok as (Ec & Eok). apply andb_true_iff in Eok. destruct Eok as (Eok & _).
+      apply andb_true_iff in Eok. destruct Eok as (Eok & _). apply est_eqb_eq in Eok. rewrite Eok in Hst. destruct s0; cbn in Ec, Hst; congruence.
+  Qed.
+
+  (** C13: a task recorded skipped or blocked has not started its main action in the current attempt, and a
+      blocked one starts nothing until a continue command re-arms it *)
+  Theorem blocked_not_started s t : Inv s -> store s t = SBlocked -> started s t = false.
+  Proof.
+    intros HI Hst. destruct (started s t) eqn:E; [|reflexivity]. pose proof (iS s HI t E) as H. rewrite Hst in H. discriminate.
+  Qed.
+
+  Theorem blocked_has_no_run s t : Inv s -> store s t = SBlocked -> ~ writing (runs s t).
+  Proof.
+    intros HI Hst Hw. pose proof (iR s HI t) as H. destruct (runs s t) as [|sn| | | |ev]; cbn in Hw; try contradiction.
+    - destruct H as (H1 & H2). rewrite Hst in H1. subst sn. discriminate.
+    - destruct H as (H1 & _). congruence.
+    - congruence.
+    - congruence.
+  Qed.
+
+  (** C13: a push whose skip (block) check fires records the verdict and runs nothing: no run of the task is
+      registered, its main action has not started in this attempt, and none of that changes *)
+  Theorem push_verdict_runs_nothing s t sn s' :
+    Inv s -> stepv s (PushSkip t sn) = Some s' \/ stepv s (PushBlock t sn) = Some s' ->
+    (store s' t = SSkipped \/ store s' t = SBlocked) /\ runs s' t = RNone /\ started s' t = false /\
+    (forall x, runs s' x = runs s x) /\ (forall x, started s' x = started s x).
+  Proof.
+    intros HI HS.
+    assert (G : forall v (b : bool), (if b then Some (push_verdict s t v (pushq s)) else None) = Some s' -> True) by (intros; exact Logic.I).
+    clear G.
+    destruct HS as [HS|HS]; cbn in HS;
+      (destruct (remove1 (t, sn) (pushq s)) as [q'|]; [|discriminate]);
+      (match type of HS with (if ?b then _ else _) = _ => destruct b eqn:Eok; [|discriminate] end); inv HS;
+      apply andb_true_iff in Eok; destruct Eok as (Ec & Eok); apply andb_true_iff in Eok; destruct Eok as (Eok & _);
+      apply andb_true_iff in Eok; destruct Eok as (Est & Enr); apply est_eqb_eq in Est;
+      (assert (Hrn : runs s t = RNone) by (destruct (runs s t); cbn in Enr; congruence));
+      (assert (Hns : started s t = false) by
+         (destruct (started s t) eqn:Es; [|reflexivity]; pose proof (iS s HI t Es) as H; rewrite Est in H; destruct sn; cbn in Ec, H; congruence));
+      cbn; rewrite upd_same; repeat split; auto.
+  Qed.
+
+  (** C13: after a continue command the block checks are bypassed (a continued task cannot be blocked by the
+      push), while a skip check still applies *)
+  Theorem continued_task_not_blocked s t : stepv s (PushBlock t SContinue) = None.
+  Proof. cbn. destruct (remove1 (t, SContinue) (pushq s)); reflexivity. Qed.
+
+  Theorem continued_task_can_be_skipped s t q' :
+    remove1 (t, SContinue) (pushq s) = Some q' -> store s t = SContinue -> runs s t = RNone ->
+    (forall sn, ~ In (t, sn) (pend s)) -> exists s', stepv s (PushSkip t SContinue) = Some s' /\ store s' t = SSkipped.
+  Proof.
+    intros Hr Hst Hrn Hnp. cbn. rewrite Hr, Hst, Hrn. cbn.
+    assert (E : existsb (fun p => Z.eqb (fst p) t) (pend s) = false).
+    { destruct (existsb (fun p => Z.eqb (fst p) t) (pend s)) eqn:E; [|reflexivity]. exfalso.
+      apply existsb_exists in E. destruct E as ((x, sn) & Hin & He). cbn in He. apply Z.eqb_eq in He. subst x. exact (Hnp sn Hin). }
+    rewrite E. cbn. eexists. split; [reflexivity|]. cbn. apply upd_same.
   Qed.
 End Facts.
 
@@ -412,9 +541,9 @@ End Facts.
     run is over the second delivery is accepted *)
 Definition deps3 (t : Z) : list Z := if Z.eqb t 3 then [2] else [].
 Definition witness_dup : list label :=
-  [Rebuild; Accept 1 SInit; StartWrite 1; MainStart 1; MainErr 1; Finish 1; Deliver;
-   CmdIssue; CmdBegin; Rearm 1; CmdPatch; Rebuild;
-   Accept 2 SInit; StartWrite 2; MainStart 2; MainOk 2; AfterOk 2; Finish 2; Deliver;
+  [Rebuild false; PushRun 1 SInit; PushRun 2 SInit; Accept 1 SInit; StartWrite 1; MainStart 1; MainErr 1; Finish 1; Deliver false;
+   CmdIssue; CmdBegin; Rearm 1; CmdPatch; Rebuild false; PushRun 2 SInit;
+   Accept 2 SInit; StartWrite 2; MainStart 2; MainOk 2; AfterOk 2; Finish 2; Deliver false; PushRun 3 SInit;
    Accept 2 SInit; StartWrite 2; Accept 3 SInit; StartWrite 3].
 
 Theorem unvalidated_refuted :
@@ -430,12 +559,26 @@ Qed.
 
 (** ... and the recorded success of task 2 is overwritten *)
 Theorem success_overwritten_refuted :
-  exists s s', run [1; 2; 3] deps3 false false true boot (firstn 20 witness_dup) = Some s /\
+  exists s s', run [1; 2; 3] deps3 false false true boot (firstn 24 witness_dup) = Some s /\
                step [1; 2; 3] deps3 false false true s (StartWrite 2) = Some s' /\ store s 2 = SSuccess /\ store s' 2 = SRunning.
 Proof.
   eexists. eexists. split; [vm_compute; reflexivity|]. split; [vm_compute; reflexivity|]. split; reflexivity.
 Qed.
 
+(** a pre-check verdict written by a duplicate push while the first delivery is already registered: the task
+    is recorded skipped, its dependent starts, and the registered run then overwrites 'skipped' with 'running' *)
+Definition witness_dup_skip : list label :=
+  [Rebuild false; PushRun 1 SInit; PushRun 2 SInit; Accept 1 SInit; StartWrite 1; MainStart 1; MainErr 1; Finish 1; Deliver false;
+   CmdIssue; CmdBegin; Rearm 1; CmdPatch; Accept 2 SInit; Rebuild false; PushSkip 2 SInit].
+
+Theorem skipped_overwritten_refuted :
+  exists s s', run [1; 2; 3] deps3 false false true boot witness_dup_skip = Some s /\
+               step [1; 2; 3] deps3 false false true s (StartWrite 2) = Some s' /\ store s 2 = SSkipped /\ store s' 2 = SRunning.
+Proof.
+  eexists. eexists. split; [vm_compute; reflexivity|]. split; [vm_compute; reflexivity|]. split; reflexivity.
+Qed.
+
 (** the same history is not a history of the validated system: the stale delivery is refused *)
-Example validated_refuses_witness : run [1; 2; 3] deps3 true false true boot witness_dup = None.
-Proof. vm_compute. reflexivity. Qed.
+Example validated_refuses_witness :
+  run [1; 2; 3] deps3 true false true boot witness_dup = None /\ run [1; 2; 3] deps3 true false true boot witness_dup_skip = None.
+Proof. split; vm_compute; reflexivity. Qed.
